@@ -55,7 +55,7 @@ def enumerate_ridge_cases(b):
     rows = sorted(b["Rows"])
     options = [(0, 0)] + [(x0, ln) for x0 in b["X0s"] for ln in b["Lens"]]
     out = []
-    for k, ds, ep in itertools.product(range(4), b["Dss"], (False, True)):
+    for k, ds, ep, rm in itertools.product(range(4), b["Dss"], (False, True), (False, True)):
         for ch in itertools.product(options, repeat=len(rows)):
             if all(o == (0, 0) for o in ch):
                 continue
@@ -68,7 +68,7 @@ def enumerate_ridge_cases(b):
                     ok = False
                 ridges.append({"y": y, "x0": o[0], "x1": o[0] + ln - 1, "a2": asc2(y), "d2": desc2(y)})
             if ok:
-                out.append({"mode": "ridges", "k": k, "ds": ds, "ep": ep, "ridges": ridges, "mh": b["MapH"], "mw": b["MapW"]})
+                out.append({"mode": "ridges", "k": k, "ds": ds, "ep": ep, "rm": rm, "ridges": ridges, "mh": b["MapH"], "mw": b["MapW"]})
     return out
 
 
@@ -117,17 +117,25 @@ def run_ridge_case(case):
     net = StubNet(case)
     eng.parsenet = net
     k, ds = case["k"], case["ds"]
-    rot_h, rot_w = case["mh"] * ds, case["mw"] * ds
+    # the page need not be a multiple of the down-sampling factor (LayoutDecode!RotH / RotW)
+    rot_h = case["mh"] * ds + (ds - 1 if case.get("rm") else 0)
+    rot_w = case["mw"] * ds + (ds // 2 if case.get("rm") else 0)
     orig = (rot_w, rot_h) if k in (1, 3) else (rot_h, rot_w)
     img = np.zeros(orig + (3,), np.uint8)
-    rec = {"mode": "ridges", "k": k, "ds": ds, "ep": bool(case["ep"]), "ridges": case["ridges"], "outcome": "ok",
-           "seen": [0, 0], "lines": [], "reg": [], "nreg": 0}
+    rec = {"mode": "ridges", "k": k, "ds": ds, "ep": bool(case["ep"]), "rm": bool(case.get("rm", False)), "ridges": case["ridges"], "outcome": "ok",
+           "seen": [0, 0], "lines": [], "plines": [], "reg": [], "nreg": 0}
     np.random.seed(12345)            # parse() breaks ties of the left-to-right sort with np.random.rand()
     try:
         with contextlib.redirect_stdout(io.StringIO()), warnings.catch_warnings(), np.errstate(all="ignore"):
             warnings.simplefilter("ignore")
             p_list, b_list, h_list, t_list = eng.detect(img, rot=k)
         rec["seen"] = net.seen
+        # the same maps decoded without any rotation handling: the lines in the frame of the rotated image
+        np.random.seed(12345)
+        with contextlib.redirect_stdout(io.StringIO()), warnings.catch_warnings(), np.errstate(all="ignore"):
+            warnings.simplefilter("ignore")
+            pb, _, _ = eng.parse(render(case["mh"], case["mw"], case["ridges"], case["ep"]), ds)
+        rec["plines"] = [{"pts": [[_milli(x), _milli(y)] for x, y in np.asarray(b, dtype=float)]} for b in pb]
         for b, h, t in zip(b_list, h_list, t_list):
             b = np.asarray(b, dtype=float)
             rec["lines"].append({"pts": [[_milli(x), _milli(y)] for x, y in b], "h": [_milli(h[0]), _milli(h[1])],
